@@ -434,3 +434,29 @@ def judge_steps(o, op, a, zeros_ok=False):
     if not o.get("intact", True):
         return "an operand no longer holds the subscripts / values it was built from after the call"
     return None
+
+
+# ---------------------------------------------------------------------------------------------
+# wave 3b: sparse / sparse as the repaired code (e2beb21) computes it — brute-force expectation used by the
+# oracle of the list-for-list tie `divmodel` (open finding C03-N7: NaN for x/0, a stored 0 for 0/x)
+# ---------------------------------------------------------------------------------------------
+def judge_div_asis(o, a):
+    if "exc" in o:
+        return f"admissible request raised {o['exc']}: {o.get('msg')}"
+    st = o["steps"][0]
+    if st.get("kind") != "sparse":
+        return f"result of kind {st.get('kind')}"
+    p = wf_problems(st, a["shape"], zeros_ok=True)
+    if p:
+        return "ill-formed sparse result: " + p
+    A = {tuple(s): v for s, v in zip(a["subs"], a["vals"])}
+    B = {tuple(s): v for s, v in zip(a["bsubs"], a["bvals"])}
+    got = {tuple(s): v for s, v in zip(st["subs"], st["vals"])}
+    for s in tgen.all_subs(a["shape"]):
+        s = tuple(s)
+        if s not in got:
+            return f"position {list(s)} is not stored (the code stores every position of the shape)"
+        want = pydiv(A[s], B[s]) if s in A and s in B else (0 if s in B else "nan")
+        if not same_val(got[s], want):
+            return f"entry {list(s)} is {got[s]}, the division code is expected to store {want}"
+    return None
